@@ -100,9 +100,17 @@ func (c *Ctx) emit(op string, toks []string, implResult string, oracleFail strin
 		fmt.Fprintln(c.oracle, id+" FAIL key="+pct(key)+" "+encStr(oracleFail))
 	}
 	if len(c.samples) < 5 || (c.n%997 == 0 && len(c.samples) < 12) {
-		c.samples = append(c.samples, line+"  =>  "+implResult)
+		smp := line + "  =>  " + implResult
+		if len(smp) > 1500 {
+			smp = smp[:1500] + "…"
+		}
+		c.samples = append(c.samples, smp)
 	}
-	c.count("impl-class", strings.SplitN(implResult, " ", 2)[0])
+	cls := strings.SplitN(implResult, " ", 2)[0]
+	if len(cls) > 24 {
+		cls = "value"
+	}
+	c.count("impl-class", cls)
 	return id
 }
 
